@@ -6,6 +6,7 @@ import Bmc.Proofs.EndToEnd.SessionlessC09
 import Bmc.Proofs.EndToEnd.HistoryC09
 import Bmc.Proofs.EndToEnd.SessionlessHistory
 import Bmc.Proofs.EndToEnd.WholeC09
+import Bmc.Proofs.EndToEnd.HistoryC09Fail
 #print axioms Bmc.Proofs.C09.command_seqs
 #print axioms Bmc.Proofs.C09.serialise_failure_consumes_nothing
 #print axioms Bmc.Proofs.C09.history_seqs
@@ -32,3 +33,7 @@ import Bmc.Proofs.EndToEnd.WholeC09
 #print axioms Bmc.Proofs.EndToEnd.generated_sessionless_history_ignores_connection
 #print axioms Bmc.Proofs.EndToEnd.generated_sessionless_history_null
 #print axioms Bmc.Proofs.EndToEnd.generated_session_then_history_sequence_numbers
+#print axioms Bmc.Proofs.EndToEnd.sendLoop_keys_any
+#print axioms Bmc.Proofs.EndToEnd.generatedHistory_eq_any
+#print axioms Bmc.Proofs.EndToEnd.generated_history_sequence_numbers_any
+#print axioms Bmc.Proofs.EndToEnd.generated_history_no_reuse_any
